@@ -419,11 +419,13 @@ V("C09/check-marks/verus", ["C09"], "san.vspec", ["san::Move::from_move"],
   "san::Move::from_move: Ok iff the move is legal; the data part is Data::from_move; the check mark is '+' iff the position after the move is check and the opponent has a legal move, '#' iff it is check and there is none, none otherwise",
   assumes=["C16/check-queries/w", "C16/check-queries/b", "C07/legal-filter", "C01/gen/dispatch", "C09/from-move/simple", "C09/from-move/pawns-castling"] + ["C02/make-move/%s/%s" % (_k, _c) for _s, _k in KINDS for _c in ("w", "b")])
 
-K("C01/legal-gen/end-to-end-small", ["C01", "C06", "C19"], MG + "c01_legal_generators_end_to_end_small_boards",
-  ["movegen::legal::gen_all", "movegen::legal::gen_capture", "movegen::legal::gen_simple", "movegen::legal::gen_simple_no_promote", "movegen::legal::gen_simple_promote",
-   "movegen::semilegal::gen_*", "movegen::semilegal::gen_*_into", "movegen::UnsafeMoveList::push", "ArrayVec::retain"],
-  "for every valid position with at most two men a side and an arbitrary witness move w: each of the five public legal generators returns w exactly once iff w is legal by the rules and in that generator's class (real macro-generated glue, real ArrayVec)",
-  bounded="positions with at most 2 men per side (the unbounded statement is the composition of C01/gen/*, C01/gen/dispatch, C01/legal/*)", timeout=5400, mem_gb=24, mem_est=8)
+E2E = []
+for _g in ("gen_all", "gen_capture", "gen_simple", "gen_simple_no_promote", "gen_simple_promote"):
+    E2E.append("C01/legal-gen/end-to-end-small/%s" % _g)
+    K(E2E[-1], ["C01", "C06", "C19"], "movegen::verif_kani_b::e2e_small_%s" % _g,
+      ["movegen::legal::%s" % _g, "movegen::semilegal::%s" % _g, "movegen::semilegal::%s_into" % _g, "movegen::UnsafeMoveList::push", "ArrayVec::retain"],
+      "for every valid position with the two kings and at most one more man, and an arbitrary witness move w: legal::%s returns w exactly once iff w is legal by the rules and in that generator's class (real macro-generated glue, real ArrayVec)" % _g,
+      bounded="positions with at most 3 men (the unbounded statement is the composition of C01/gen/*, C01/gen/dispatch, C01/legal/*)", timeout=3600, mem_gb=24, mem_est=8, tier="thorough" if _g != "gen_all" else "quick")
 
 K("C17/styled/empty-chain", ["C17"], CH + "c17_styled_list_empty_chain", ["<StyledList as Display>::fmt", "<UciList as Display>::fmt", "BaseMoveChain::styled", "BaseMoveChain::uci"],
   "for the chain without moves and every number policy (incl. all 65536 custom numbers), move style, status policy and stored outcome: the styled text is exactly the status token of the STORED outcome (or nothing when hidden); the UCI list is empty", timeout=2400)
@@ -432,8 +434,8 @@ K("C17/lists/fixed-game", ["C17"], CH + "c17_lists_fixed_game", ["<StyledList as
   bounded="one fixed game; SAN style only; custom start numbers < 256", timeout=5400, mem_gb=24, mem_est=8)
 
 K("C07/has-legal-moves/small-boards", ["C07"], "movegen::verif_kani_b::c07_has_legal_moves_small_boards", ["movegen::has_legal_moves", "Board::has_legal_moves"],
-  "for every valid position with at most two men a side: has_legal_moves() == the legal move list is non-empty (real glue: ErrOnFirst, LegalFilter, side dispatch)",
-  bounded="positions with at most 2 men per side", assumes=["C01/legal-gen/end-to-end-small"], timeout=5400, mem_gb=24, mem_est=8)
+  "for every valid position with at most three men: has_legal_moves() == the legal move list is non-empty (real glue: ErrOnFirst, LegalFilter, side dispatch)",
+  bounded="positions with at most 3 men", assumes=["C01/legal-gen/end-to-end-small/gen_all"], timeout=5400, mem_gb=24, mem_est=8)
 N("C19/capacity-witnesses", ["C19"], "movegen::verif_kani_b::n19_capacity_and_known_high_mobility_positions", ["movegen::MoveList", "movegen::semilegal::gen_all_into"],
   "NOT a proof of A-CAP: MoveList capacity is the documented 256 and is not exceeded by the highest-mobility positions known (218 legal in a reachable position; 242 semilegal with 15 promoted queens), evaluated on the real generator through the safe Vec sink")
 
